@@ -77,10 +77,18 @@ def do_step(chk: Check) -> None:
     ok = len(handlers) == 1
     if ok:
         h = handlers[0]
-        asg = [s for s in h.body if isinstance(s, ast.Assign)]
-        ok = (len(asg) == 1 and isinstance(asg[0].targets[0], ast.Tuple) and [norm(e) for e in asg[0].targets[0].elts] == ['finished', 'return_value']
-              and isinstance(asg[0].value, ast.Tuple) and [norm(e) for e in asg[0].value.elts] == ['True', f'{h.name}.exit_code'])
+        # what the handler binds (one tuple assignment or two plain ones): the pair the step would have returned is (True, exit code)
+        bound = {}
+        for s_ in h.body:
+            if isinstance(s_, ast.Assign) and len(s_.targets) == 1:
+                if isinstance(s_.targets[0], ast.Tuple) and isinstance(s_.value, ast.Tuple) and len(s_.targets[0].elts) == len(s_.value.elts):
+                    bound.update({norm(a_): norm(b_) for a_, b_ in zip(s_.targets[0].elts, s_.value.elts)})
+                elif isinstance(s_.targets[0], ast.Name):
+                    bound[norm(s_.targets[0])] = norm(s_.value)
         tr = [t for t in ast.walk(ds.node) if isinstance(t, ast.Try) and h in t.handlers][0]
+        unp = [s_.targets[0] for s_ in tr.body if isinstance(s_, ast.Assign) and isinstance(s_.targets[0], ast.Tuple) and len(s_.targets[0].elts) == 2
+               and isinstance(s_.value, ast.Call) and norm(s_.value.func) == 'self._stepper.step']
+        ok = len(unp) == 1 and bound == {norm(unp[0].elts[0]): 'True', norm(unp[0].elts[1]): f'{h.name}.exit_code'}
         ok = ok and any(norm(c.func) == 'self._stepper.step' for s in tr.body for c in ast.walk(s) if isinstance(c, ast.Call))
     chk.ob('DOM-return-propagation', ds, ok, 'return_ raised anywhere below is caught here and means (finished, exit code)', kind='caught-in-do-step')
     pr = prog.cls('workchains._PropagateReturn')
